@@ -489,6 +489,7 @@ func checkIsUsed(c *core.Ctx) {
 		{"NodeTypeTableValuedFunction", ".Descriptor.Descriptor", "a DESCRIPTOR(col) argument of a table-valued function names the column"},
 		{"NodeTypeDistinct", ".Name", "DISTINCT de-duplicates on every column of its input"},
 		{"NodeTypeUnnest", ".Unnest.Field", "unnest() names the list column it expands"},
+		{"NodeTypeOrderSensitiveTransform", ".Name", "ORDER BY … LIMIT breaks ties on the order key by comparing whole records, so every column decides which rows are the first n"},
 	}
 	setsUsed := func(n ast.Node) bool {
 		found := false
@@ -550,7 +551,7 @@ func checkIsUsed(c *core.Ctx) {
 		}
 	}
 	c.Decide(rootOK, "OPT4", key+"/root schema", fn.Decl.Pos(), 1, "output columns of the plan are used", "isUsed does not treat the plan's own output columns as used")
-	c.Floor("OPT4", 6, "5 consumers + root")
+	c.Floor("OPT4", 7, "6 consumers + root")
 }
 
 // checkPruners (OPT3).
